@@ -1,9 +1,163 @@
-import OlVerif.Lower.Stmt
+/-
+  C08 -- property theorems (only): unsupported constructs are rejected at any depth.
+  Helper lemmas and the induction are in OlVerif/Lower/Reject.lean.
+-/
+import OlVerif.Lower.Reject
 namespace OlVerif.C08
 
 /-- a statement of an unsupported kind is refused wherever the lowering reaches it -/
 theorem reject_other_stmt (cx : Ctx) (k : String) (b : List (List Stmt)) (e : List Expr) (st : St) :
     lowerStmt cx (.other k b e) st = .error (refuse k) := by
   simp [lowerStmt]
+
+/-- **Rejection at any depth.**  `badModule body` says: somewhere in the program, in a position the
+    converter visits - nested to any depth in if / while / for / else / def / class bodies, in any
+    expression position of any statement including defaults, decorators, bases, keywords, targets,
+    comprehensions, lambdas and f-strings - there is a statement of an unsupported kind, a yield /
+    yield from / await, a star import, a break / continue outside a loop, a return outside a
+    function, a second starred name in one target pattern or a target of an unknown kind.  Then the
+    conversion returns an error, for every configuration and every symbol table: it never answers
+    with an expression. -/
+theorem reject_at_any_depth (cfg : Cfg) (root : SymScope) (body : List Stmt) (h : badModule body = true) :
+    ∃ err, lowerFull cfg root body = .error err :=
+  lowerFull_err cfg root body h
+
+/-- yield / yield from / await make the expression transformer fail from any depth of any expression -/
+theorem reject_expr_at_any_depth (n : Nsp) (bound : List String) (e : Expr) (h : hasUnsup e = true) :
+    ∃ err, transf n bound e = .error err :=
+  transf_err n bound e h
+
+/-! ### the same, stated over syntactic containment -/
+
+/-- the statement blocks of a statement that the converter lowers -/
+def blocks : Stmt → List (List Stmt)
+  | .if_ _ b e => [b, e]
+  | .while_ _ b e => [b, e]
+  | .for_ _ _ b e => [b, e]
+  | .functionDef _ _ b _ _ => [b]
+  | .classDef _ _ _ b _ _ => [b]
+  | _ => []
+
+/-- `s` occurs in the block at a live position: not behind a direct break / continue / return of
+    its own block (the converter cuts those tails, KF-D37), at any depth -/
+inductive LiveIn (s : Stmt) : List Stmt → Prop
+  | here (pre post : List Stmt) : (∀ p ∈ pre, p.isDirect = false) → LiveIn s (pre ++ s :: post)
+  | inside (pre post : List Stmt) (t : Stmt) (blk : List Stmt) :
+      (∀ p ∈ pre, p.isDirect = false) → blk ∈ blocks t → LiveIn s blk → LiveIn s (pre ++ t :: post)
+
+/-- `s` occurs in the module: as one of its statements (all are converted) or live inside one -/
+def InModule (s : Stmt) (body : List Stmt) : Prop :=
+  ∃ pre t post, body = pre ++ t :: post ∧ (t = s ∨ ∃ blk ∈ blocks t, LiveIn s blk)
+
+theorem badL_skip (il ifn : Bool) (rest : List Stmt) : ∀ (pre : List Stmt), (∀ p ∈ pre, p.isDirect = false) →
+    badL il ifn rest = true → badL il ifn (pre ++ rest) = true
+  | [], _, h => h
+  | p :: pre, hp, h => by
+      have h1 := hp p (by simp)
+      have h2 := badL_skip il ifn rest pre (fun q hq => hp q (by simp [hq])) h
+      simp [badL, h1, h2]
+
+theorem badS_of_block (t : Stmt) (blk : List Stmt) (hb : blk ∈ blocks t)
+    (h : ∀ il ifn, badL il ifn blk = true) : ∀ il ifn, badS il ifn t = true := by
+  intro il ifn
+  cases t <;> simp only [blocks, List.mem_cons, List.not_mem_nil, or_false] at hb
+  all_goals (first | (rcases hb with rfl | rfl <;> simp [badS, h]) | (subst hb; simp [badS, h]))
+
+/-- a statement that is refused in every context is refused from every live position -/
+theorem badL_of_liveIn (s : Stmt) (hs : ∀ il ifn, badS il ifn s = true) :
+    ∀ blk, LiveIn s blk → ∀ il ifn, badL il ifn blk = true := by
+  intro blk hl
+  induction hl with
+  | here pre post hp =>
+    intro il ifn
+    exact badL_skip il ifn _ pre hp (by simp [badL, hs])
+  | inside pre post t blk hp hb _ ih =>
+    intro il ifn
+    exact badL_skip il ifn _ pre hp (by simp [badL, badS_of_block t blk hb ih il ifn])
+
+theorem badModule_of_mem (t : Stmt) (h : badS false false t = true) : ∀ (pre post : List Stmt),
+    badModule (pre ++ t :: post) = true
+  | [], post => by simp [badModule, h]
+  | p :: pre, post => by simp [badModule, badModule_of_mem t h pre post]
+
+/-- **Containment form.**  A statement that the converter refuses in every context - a statement
+    of an unsupported kind, an expression statement / assignment / loop / def / class holding a
+    yield or await, a star import, ... - makes the whole conversion fail wherever it occurs live in
+    the module, at any nesting depth. -/
+theorem reject_contained (cfg : Cfg) (root : SymScope) (body : List Stmt) (s : Stmt)
+    (hs : ∀ il ifn, badS il ifn s = true) (hin : InModule s body) :
+    ∃ err, lowerFull cfg root body = .error err := by
+  obtain ⟨pre, t, post, rfl, ht⟩ := hin
+  apply reject_at_any_depth
+  apply badModule_of_mem
+  rcases ht with rfl | ⟨blk, hb, hl⟩
+  · exact hs false false
+  · exact badS_of_block t blk hb (badL_of_liveIn s hs blk hl) false false
+
+/-- unsupported statement kinds (try, with, raise, assert, del, match, async forms, type alias) -/
+theorem reject_unsupported_stmt (cfg : Cfg) (root : SymScope) (body : List Stmt) (k : String)
+    (b : List (List Stmt)) (e : List Expr) (hin : InModule (.other k b e) body) :
+    ∃ err, lowerFull cfg root body = .error err :=
+  reject_contained cfg root body _ (fun _ _ => by simp [badS]) hin
+
+/-- an expression statement holding yield / yield from / await at any depth of its expression -/
+theorem reject_yield_stmt (cfg : Cfg) (root : SymScope) (body : List Stmt) (v : Expr)
+    (hv : hasUnsup v = true) (hin : InModule (.expr v) body) :
+    ∃ err, lowerFull cfg root body = .error err :=
+  reject_contained cfg root body _ (fun _ _ => by simp [badS, hv]) hin
+
+/-- `from m import *` -/
+theorem reject_star_import (cfg : Cfg) (root : SymScope) (body : List Stmt) (m : Option String) (lvl : Nat)
+    (hin : InModule (.importFrom m [⟨"*", none⟩] lvl) body) :
+    ∃ err, lowerFull cfg root body = .error err :=
+  reject_contained cfg root body _ (fun _ _ => by simp [badS, starImport]) hin
+
+/-- two starred names in one target pattern -/
+theorem reject_two_stars (cfg : Cfg) (root : SymScope) (body : List Stmt) (a b : String) (v : Expr)
+    (hin : InModule (.assign [.tuple [.starred (.name a), .starred (.name b)]] v) body) :
+    ∃ err, lowerFull cfg root body = .error err :=
+  reject_contained cfg root body _
+    (fun _ _ => by simp [badS, badTargets, badTarget, badElts, Expr.isStarred]) hin
+
+/-- illegal placements: module level, a function body outside a loop, a class body -/
+theorem reject_break_module (cfg : Cfg) (root : SymScope) (pre post : List Stmt) :
+    ∃ err, lowerFull cfg root (pre ++ .break_ :: post) = .error err :=
+  reject_at_any_depth _ _ _ (badModule_of_mem _ (by simp [badS]) pre post)
+
+theorem reject_return_module (cfg : Cfg) (root : SymScope) (pre post : List Stmt) (v : Option Expr) :
+    ∃ err, lowerFull cfg root (pre ++ .return_ v :: post) = .error err :=
+  reject_at_any_depth _ _ _ (badModule_of_mem _ (by simp [badS]) pre post)
+
+theorem reject_continue_in_def (cfg : Cfg) (root : SymScope) (pre post fpre fpost : List Stmt)
+    (name : String) (args : Arguments) (decos : List Expr) (lineno : Nat)
+    (hp : ∀ p ∈ fpre, p.isDirect = false) :
+    ∃ err, lowerFull cfg root
+      (pre ++ .functionDef name args (fpre ++ .continue_ :: fpost) decos lineno :: post) = .error err :=
+  reject_at_any_depth _ _ _ (badModule_of_mem _
+    (by
+      have h : badL false true (fpre ++ .continue_ :: fpost) = true :=
+        badL_skip false true _ fpre hp (by simp [badL, badS])
+      simp [badS, h]) pre post)
+
+theorem reject_return_in_class (cfg : Cfg) (root : SymScope) (pre post cpre cpost : List Stmt)
+    (name : String) (bases : List Expr) (kws : List Keyword) (decos : List Expr) (lineno : Nat) (v : Option Expr)
+    (hp : ∀ p ∈ cpre, p.isDirect = false) :
+    ∃ err, lowerFull cfg root
+      (pre ++ .classDef name bases kws (cpre ++ .return_ v :: cpost) decos lineno :: post) = .error err :=
+  reject_at_any_depth _ _ _ (badModule_of_mem _
+    (by
+      have h : badL false false (cpre ++ .return_ v :: cpost) = true :=
+        badL_skip false false _ cpre hp (by simp [badL, badS])
+      simp [badS, h]) pre post)
+
+/-- non-vacuity: `while c: (def f(): for x in y: [(yield) for _ in z])`, three levels deep, is
+    `InModule` and refused in every context -/
+example : InModule (.expr (.listComp (.yield_ none) [.mk (.name "_") (.name "z") [] false]))
+    [.pass_, .while_ (.name "c")
+      [.functionDef "f" Arguments.empty
+        [.for_ (.name "x") (.name "y")
+          [.pass_, .expr (.listComp (.yield_ none) [.mk (.name "_") (.name "z") [] false])] []] [] 1] []] :=
+  ⟨[.pass_], _, [], rfl, Or.inr ⟨_, List.mem_cons_self, LiveIn.inside [] [] _ _ (by simp) List.mem_cons_self
+    (LiveIn.inside [] [] _ _ (by simp) List.mem_cons_self (LiveIn.here [.pass_] [] (by simp [Stmt.isDirect])))⟩⟩
 
 end OlVerif.C08
